@@ -84,6 +84,7 @@ func init() {
 		// a third of the cases with the main-loop -> worker hand-off split in two steps and more node syncs: messages then also
 		// meet a node between two heights (committees differ between heights)
 		p.SplitPct, p.SyncPct, p.ReverseToLaggers = 35, 4, true
+		p.ProoflessSyncs = true // one node sometimes enters a height without the previous block's proof: no share of the others fits its seed
 	}),
 		QuickCases: 5000, ThoroughCases: 100000,
 		NonTrivial: func(r *sim.Result) bool {
